@@ -108,7 +108,7 @@ def struct_descriptors(tier):
             yield kinds
 
 
-@rule("L2", ["C01", "C03", "C05", "C06"], "struct: metaclass, planner, writer, reader, locator and documented layout agree for every field pattern")
+@rule("L2", ["C01", "C03", "C05", "C06", "C07"], "struct: metaclass, planner, writer, reader, locator and documented layout agree for every field pattern")
 def l2(cx):
     m = cx.m
     check_docs(m, cx)
